@@ -405,3 +405,20 @@ claim(
     "module state is decided under C17-MODULE.",
     "DESIGN.md section 5 C11",
 )
+
+claim(
+    "C26",
+    "FLOW",
+    "static: taint rule (printf-formatting only of %-doubled message text), count-test lint, null-fallback shapes",
+    "Clauses: the only printf-style % in the translate filters formats a copy of the message in "
+    "which every percent sign that does not start a %(name)s placeholder was doubled by "
+    "re_percent.sub on every path, and the tag's message is assembled from "
+    "text.replace('%','%%') and %(var)s pieces only; placeholders are found with re_vars and "
+    "replaced by to_liquid_string(context.resolve(name)); the plural count is tested with "
+    "`is None` (never truthiness, never membership in a tuple containing booleans), defaults as "
+    "documented and is passed last to ngettext/npgettext; tag and filters fall back to "
+    "NullTranslations(); whitespace is collapsed only when trim_messages is set.",
+    "Trusted: gettext.NullTranslations (singular iff n == 1). A float count is truncated by "
+    "int() before it reaches ngettext (1.5 -> singular) — value-level, not decided.",
+    "DESIGN.md section 5 C26",
+)
